@@ -894,7 +894,7 @@ func filter(s *scope, args []pyObject) pyObject {
 	s.Assert(isFunc, "Argument filter must be callable, not %s", args[0].Type())
 	s.Assert(isList, "Argument seq must be a list, not %s", args[1].Type())
 
-	var ret pyList
+	ret := pyList{} // not nil: an empty result must still be a list (it equals [] and serialises as [])
 	for _, li := range l {
 		c := &Call{
 			Arguments: []CallArgument{{
